@@ -198,6 +198,8 @@ def regenerate(repo=None):
         "Definition log_gaussian_dict : bool := %s." % ("true" if has_dict else "false"),
         "(* %s: Drawer called with the arguments of its own search.json does not raise *)" % DRAWER,
         "Definition drawer_json_readable : bool := %s." % ("true" if drawer_ok else "false"),
+        "(* %s: the walk iterates a set / frozenset as sorted(value, key=str) *)" % IDENT,
+        "Definition sets_sorted : bool := %s." % ("true" if sorts else "false"),
         "",
     ]
     text = "\n".join(lines)
@@ -819,6 +821,8 @@ def obj_term(a):
         return "ONone"
     if t == "other":
         return "(OOther %s %s)" % (cstr(a[1]), cbool(a[2]))
+    if t == "set":
+        return "(OSet %s)" % clist([cstr(x) for x in a[1]])
     raise ValueError(t)
 
 
@@ -1407,7 +1411,7 @@ def gen_cases(ctx):
         cases += special_pairs(rng, Gen(rng, clean=True))
     for _ in range(120 if quick else 2500):
         v = gen_value(rng)
-        cases.append({"kind": "walk", "value": v, "labels": ["set_order"] if big_set(v) else []})
+        cases.append({"kind": "walk", "value": v, "labels": []})      # (sets used to carry the label of a finding, repaired in 9943127)
     specials = [0.0, -0.0, 5e-9, -5e-9, 1.5e-8, 2.5e-8, 3.5e-8, 0.1 + 0.2, 1e-8, 0.30000000000000004, 1e10 + 0.5, 2.0 ** 53 * 1e-8,
                 4.6e10, 9.3e10, 1e11, 1e15, 1e22, 1e300, -1e300, 1.7976931348623157e308, 5e-324, 1e-300,
                 float("inf"), float("-inf"), float("nan"), 123456789.123456789, -0.999999995, 0.999999995]
@@ -1426,7 +1430,7 @@ def gen_cases(ctx):
 
 
 def case_key(c):
-    return {k: v for k, v in c.items() if k not in ("labels",)}
+    return {k: v for k, v in c.items() if k not in ("labels", "corpus")}
 
 
 def is_nontrivial(c):
@@ -1611,7 +1615,9 @@ def run(ctx):
     if os.path.isdir(corpus_dir):
         for f in sorted(os.listdir(corpus_dir)):
             if f.endswith(".json"):
-                cases.insert(0, _json.load(open(os.path.join(corpus_dir, f)))["case"])
+                cj = _json.load(open(os.path.join(corpus_dir, f)))
+                cj["case"]["corpus"] = f
+                cases.insert(0, cj["case"])
     if ctx.replay:
         rp = _json.load(open(ctx.replay))
         if rp.get("case"):
@@ -1647,6 +1653,7 @@ def run(ctx):
     second_by_idx = {fit_idx[j]: second["results"][pos] for pos, j in enumerate(order2)}
 
     coq_cases, coq_owner = [], []
+    corpus_failed = {}
     for i, (c, r) in enumerate(zip(cases, results)):
         labels = list(c.get("labels", []))
         kind = c["kind"] + (":" + c["how"].split(":")[0] if c["kind"] == "pair" else "")
@@ -1657,6 +1664,8 @@ def run(ctx):
                 ctx.hist("feature", f)
             ctx.hist("search", (c.get("spec") or c["a"])["search"]["cls"])
         if "exc" in r:
+            if c.get("corpus"):
+                corpus_failed[c["corpus"]] = "driver failed: %s" % r["exc"]
             ctx.oracle["failures"] += 1
             ctx.failure("oracle", "driver failed on the case: %s %s" % (r["exc"], r.get("msg")), c, classes=labels, impl=r)
             continue
@@ -1672,6 +1681,8 @@ def run(ctx):
             if c["kind"] == "pair" and o2.get("identifier", o2.get("raised")) != ok["b"].get("identifier", ok["b"].get("raised")):
                 msgs = [("files written by one process are read to another identifier by a second process (%s vs %s)"
                          % (ok["b"].get("identifier"), o2.get("identifier", o2.get("raised"))), False)]
+        if msgs and c.get("corpus"):
+            corpus_failed[c["corpus"]] = msgs[0][0]
         for msg, labelled in msgs:
             ctx.oracle["failures"] += 1
             small = {k: (v if k not in ("abs_model", "abs_search", "abs") else "...") for k, v in ok.items()} if "a" not in ok else \
@@ -1684,6 +1695,17 @@ def run(ctx):
         if i % 97 == 0:
             sm = _json.dumps(case_key(c))
             ctx.sample({"case": case_key(c) if len(sm) < 700 else {"kind": c["kind"], "how": c.get("how"), "size": len(sm)}}, limit=8)
+    # every repaired finding keeps its pinned corpus case: it must pass now (a fixed entry suppresses nothing)
+    if not ctx.replay:
+        present = {c.get("corpus") for c in cases}
+        for k in ctx.known:
+            if k.get("status") == "fixed" and k.get("replay"):
+                name = os.path.basename(k["replay"])
+                if name in present:
+                    ctx.obligation("regression:" + k["signature"], "regression", name not in corpus_failed,
+                                   corpus_failed.get(name, "pinned case %s passes (repaired in %s)" % (name, k.get("commit"))))
+                else:
+                    ctx.obligation("regression:" + k["signature"], "regression", False, "pinned corpus case %s is missing" % name)
     if os.path.exists(os.path.join(common.COQ, "C07", "Model.vo")):
         hdr = ctx.header(["Common.PyFloat", "Gen", "Model"])
         bad, log = ctx.eval_cases(hdr, "case", "check_case", coq_cases, shard=max(20, len(coq_cases) // (2 * common.NCPU) + 1))
